@@ -749,13 +749,17 @@ void RobustPath::cubic(const Vec2 point1, const Vec2 point2, const Vec2 point3,
     fill_widths_and_offsets(width_, offset_);
 }
 
+// Sections are stored in the local frame of the path (before trafo is applied), so the
+// continuity of new sections has to be evaluated in that frame as well
+static const double local_frame[6] = {1, 0, 0, 0, 1, 0};
+
 void RobustPath::cubic_smooth(const Vec2 point2, const Vec2 point3, const Interpolation *width_,
                               const Interpolation *offset_, bool relative) {
     SubPath sub = {SubPathType::Bezier3};
     sub.p0 = end_point;
     sub.p1 = end_point;
     if (subpath_array.count > 0)
-        sub.p1 += subpath_array[subpath_array.count - 1].gradient(1, trafo) / 3;
+        sub.p1 += subpath_array[subpath_array.count - 1].gradient(1, local_frame) / 3;
     sub.p2 = point2;
     sub.p3 = point3;
     if (relative) {
@@ -788,7 +792,7 @@ void RobustPath::quadratic_smooth(const Vec2 point2, const Interpolation *width_
     sub.p0 = end_point;
     sub.p1 = end_point;
     if (subpath_array.count > 0)
-        sub.p1 += subpath_array[subpath_array.count - 1].gradient(1, trafo) / 2;
+        sub.p1 += subpath_array[subpath_array.count - 1].gradient(1, local_frame) / 2;
     sub.p2 = point2;
     if (relative) sub.p2 += end_point;
     end_point = sub.p2;
@@ -860,7 +864,7 @@ void RobustPath::turn(double radius, double angle, const Interpolation *width_,
                       const Interpolation *offset_) {
     Vec2 direction = Vec2{1, 0};
     if (subpath_array.count > 0)
-        direction = subpath_array[subpath_array.count - 1].gradient(1, trafo);
+        direction = subpath_array[subpath_array.count - 1].gradient(1, local_frame);
     const double initial_angle = direction.angle() + (angle < 0 ? 0.5 * M_PI : -0.5 * M_PI);
     arc(radius, radius, initial_angle, initial_angle + angle, 0, width_, offset_);
 }
@@ -879,7 +883,7 @@ void RobustPath::parametric(ParametricVec2 curve_function, void *func_data,
     }
     sub.func_data = func_data;
     if (relative) sub.reference = end_point;
-    end_point = sub.eval(1, trafo);
+    end_point = sub.eval(1, local_frame);
     subpath_array.append(sub);
     fill_widths_and_offsets(width_, offset_);
 }
